@@ -114,7 +114,12 @@ def histories(draw):
         # this synchronisation: SQLite then answers "database is locked" (OperationalError) until the lock is released
         busy = draw(st.sampled_from([0, 0, 0, 0, 1, 2, 3, 5, 8]))
         if o in ("new", "add_nosync"):
-            ops.append({"op": o, "f": draw(fields(nind)), "busy": busy})
+            f_ = draw(fields(nind))
+            if nind and draw(st.integers(0, 3)) == 0:
+                # the same design again (a repeated measurement, an iterate that did not move): another individual, another
+                # id, an equal vector
+                f_["vector_of"] = draw(st.integers(0, nind - 1))
+            ops.append({"op": o, "f": f_, "busy": busy})
             nind += 1
         elif o in ("mutate", "mutate_nosync") and nind:
             ops.append({"op": o, "i": draw(st.integers(0, nind - 1)), "f": draw(fields(nind)), "busy": busy})
@@ -182,6 +187,8 @@ def _apply(ind, f, objs):
     import numpy as np
     cv = (lambda x: np.float64(x)) if f["np"] else (lambda x: x)
     ind.vector = [cv(x) for x in f["vector"]]
+    if f.get("vector_of") is not None and objs:
+        ind.vector = list(objs[f["vector_of"] % len(objs)].vector)
     ind.costs = [cv(x) for x in f["costs"]]
     ind.costs_signed = [cv(x) for x in f["signed"][:-1]] + [f["signed"][-1]]
     ind.population_id = f["pop"]
